@@ -24,8 +24,10 @@ def showStore (st : Store) : String :=
   if st.isEmpty then "." else ",".intercalate (st.map fun (k, v) => hex k ++ ":" ++ hex v)
 
 def wTok : WOut → String
-  | .appended => "appended" | .updated => "updated" | .reserved => "reserved" | .shortChar => "shortchar"
-  | .hasEq => "haseq" | .hasLower => "haslower" | .keyTooLong => "keytoolong" | .valueTooLong => "valuetoolong"
+  | .appended => "appended" | .updated => "updated"
+  | .threw .reserved => "reserved" | .threw .shortChar => "shortchar"
+  | .threw .hasEq => "haseq" | .threw .hasLower => "haslower"
+  | .threw .keyTooLong => "keytoolong" | .threw .valueTooLong => "valuetoolong"
 
 def outTok (tag : String) : Out → String
   | .w o => "w:" ++ wTok o
